@@ -314,6 +314,42 @@ class FocusPolicy(Policy):
         return self.r.choice(sorted(runnable))
 
 
+class PointPolicy(Policy):
+    """One targeted pre-emption: the victim thread is stopped at its k-th line inside the focus
+    function (counted over all its calls), every other thread then runs (to completion, in a
+    seeded order), and the victim resumes.  Systematic in k: the line at which a thread is caught
+    half-way through updating shared state is hit by construction, not by luck."""
+
+    name = "point"
+
+    def __init__(self, seed: int, focus: str, victim: int, k: int) -> None:
+        self.r = random.Random(seed)
+        self.focus = focus
+        self.victim = victim
+        self.k = max(1, k)
+        self.count = 0
+        self.fired = False
+
+    def first(self, sched: "Scheduler", runnable: List[int]) -> int:
+        return self.victim if self.victim in runnable else min(runnable)
+
+    def choose(self, sched: "Scheduler", ws: "Worker", site: str, hot: bool) -> Optional[int]:
+        if self.fired or ws.tid != self.victim or site != self.focus:
+            return None
+        self.count += 1
+        if self.count == self.k:
+            self.fired = True
+            others = [t for t in sched.runnable() if t != ws.tid]
+            if others:
+                return self.r.choice(sorted(others))
+        return None
+
+    def on_exit(self, sched: "Scheduler", ws: "Worker", runnable: List[int]) -> int:
+        # the victim resumes only after all the others are done
+        rest = [t for t in runnable if t != self.victim] if self.fired else runnable
+        return self.r.choice(sorted(rest or runnable))
+
+
 FOCUS_CHOICES = sorted(HOT_QUALNAMES | {"<module>", "<lambda>", "Phase2Transpiler.__init__",
                                         "Phase2Transpiler.expr", "Phase2Transpiler.statements",
                                         "Phase1Transpiler.__init__", "function_matches",
@@ -430,6 +466,8 @@ def make_policy(spec: Dict[str, Any], tids: List[int], k_estimate: int) -> Polic
         return RoundRobinPolicy(spec["seed"], spec["q"])
     if kind == "focus":
         return FocusPolicy(spec["seed"], spec["focus"], spec["p_in"], spec["p_out"])
+    if kind == "point":
+        return PointPolicy(spec["seed"], spec["focus"], spec["victim"], spec["k"])
     if kind == "serial":
         return Policy()
     raise ValueError(kind)
